@@ -200,4 +200,130 @@ example :
     let g : Fld Rat := ⟨0, [⟨[2], .vector #[1/2, 2], none⟩], DT.float, fun i => if i.headD 0 = 0 then 3 else 5⟩
     (match var (fun z => z * z) g .none with | .ok m => m.val [] | .error _ => 0) = 16/25 := by decide +kernel
 
+/-- Field.vdot(x, spaces): with all sub-domains listed it is `Σ_i conj(self_i)·x_i` over the whole array
+    (AnyArray.vdot); with a proper subset it is that sum over each index fibre of the listed sub-domains, living on
+    the remaining ones (`(self.conjugate()*x).sum(spaces)`; `conjugate()` skips real dtypes, on which `conj` is the
+    identity: `hconj`); and the fibre sums add up to the full dot product for every mask (Fubini). -/
+theorem vdot_partial_eq_sum [CommRing K] (conj : K → K) (f g r : Fld K) (sp : Spaces)
+    (hconj : f.dt ≠ DT.complex → ∀ i, conj (f.val i) = f.val i)
+    (h : vdot conj f g sp = .ok r) :
+    g.dom = f.dom ∧ ∃ l, parseSpaces sp f.subs.length = .ok l ∧
+      (l.length = f.subs.length → ∀ o, r.val o = sumOver (allIdx f.sizes) (fun i => conj (f.val i) * g.val i)) ∧
+      (l.length ≠ f.subs.length → r.subs = sel false (maskOf f.subs.length l) f.subs ∧
+        ∀ o, r.val o = sumOver (allIdx (sel true (maskOf f.subs.length l) f.sizes)) (fun c =>
+          conj (f.val (merge (maskOf f.subs.length l) o c)) * g.val (merge (maskOf f.subs.length l) o c))) ∧
+      (∀ mask : List Bool, mask.length = f.sizes.length →
+        sumOver (allIdx (sel false mask f.sizes)) (contract mask f.sizes (fun i => conj (f.val i) * g.val i))
+          = sumOver (allIdx f.sizes) (fun i => conj (f.val i) * g.val i)) := by
+  unfold vdot at h
+  by_cases hd : g.dom = f.dom
+  · simp only [hd, ne_eq, not_true_eq_false, if_false] at h
+    refine ⟨hd, ?_⟩
+    cases hp : parseSpaces sp f.subs.length with
+    | error e => simp only [hp] at h; cases h
+    | ok l =>
+      simp only [hp] at h
+      refine ⟨l, rfl, ?_, ?_, fun mask hm => contract_total mask f.sizes _ hm⟩
+      · intro hl o
+        simp only [hl, if_true, Except.ok.injEq] at h
+        subst h
+        rfl
+      · intro hl
+        simp only [hl, if_false, Except.ok.injEq] at h
+        subst h
+        refine ⟨rfl, fun o => ?_⟩
+        simp only [contractFld, contract, Fld.sizes]
+        apply sumOver_congr
+        intro c _
+        by_cases hc : f.dt = DT.complex
+        · simp only [hc, if_true]
+        · simp only [hc, if_false, hconj hc]
+  · simp only [ne_eq, hd, not_false_eq_true, if_true] at h
+    cases h
+
+/-- s_vdot / vdot over all sub-domains is conjugate-linear in the first argument, linear in the second, and
+    Hermitian: `⟨a·x + y, z⟩ = conj(a)·⟨x,z⟩ + ⟨y,z⟩`, `⟨z, a·x + y⟩ = a·⟨z,x⟩ + ⟨z,y⟩`, `⟨x,z⟩ = conj ⟨z,x⟩`
+    for every ring involution `conj`. -/
+theorem vdot_conj_linear [CommRing K] (conj : K →+* K) (hinv : ∀ a, conj (conj a) = a)
+    (x y z : Fld K) (a : K) (hy : y.dom = x.dom) (hz : z.dom = x.dom) (hys : y.subs = x.subs)
+    (hzs : z.subs = x.subs) :
+    ∃ vxz vyz vzx vzy, sVdot conj x z = .ok vxz ∧ sVdot conj y z = .ok vyz ∧
+      sVdot conj z x = .ok vzx ∧ sVdot conj z y = .ok vzy ∧
+      sVdot conj { x with val := fun i => a * x.val i + y.val i } z = .ok (conj a * vxz + vyz) ∧
+      sVdot conj z { x with val := fun i => a * x.val i + y.val i } = .ok (a * vzx + vzy) ∧
+      vxz = conj vzx := by
+  have hsz : z.sizes = x.sizes := by simp only [Fld.sizes, hzs]
+  have hsy : y.sizes = x.sizes := by simp only [Fld.sizes, hys]
+  refine ⟨sumOver (allIdx x.sizes) (fun i => conj (x.val i) * z.val i),
+    sumOver (allIdx x.sizes) (fun i => conj (y.val i) * z.val i),
+    sumOver (allIdx x.sizes) (fun i => conj (z.val i) * x.val i),
+    sumOver (allIdx x.sizes) (fun i => conj (z.val i) * y.val i), ?_, ?_, ?_, ?_, ?_, ?_, ?_⟩
+  · simp [sVdot, hz]
+  · simp [sVdot, hz, hy, hsy]
+  · simp [sVdot, hz, hsz]
+  · simp [sVdot, hz, hy, hsz]
+  · simp only [sVdot, hz, ne_eq, not_true_eq_false, if_false, Except.ok.injEq, map_add, map_mul, Fld.sizes]
+    rw [← sumOver_mul_left, ← sumOver_add]
+    apply sumOver_congr
+    intro i _
+    ring
+  · simp only [sVdot, hz, ne_eq, not_true_eq_false, if_false, Except.ok.injEq, hsz]
+    rw [← sumOver_mul_left, ← sumOver_add]
+    apply sumOver_congr
+    intro i _
+    ring
+  · rw [sumOver_hom conj (map_zero conj) (map_add conj)]
+    apply sumOver_congr
+    intro i _
+    simp only [map_mul, hinv]
+    ring
+
+/-- total_volume(spaces) is the product of the sub-domain volumes of the listed sub-domains, and for the whole
+    domain (StructuredDomain formula, every sub-domain has volume factors) this product equals the sum over ALL
+    multi-indices of the product of the volume factors — the integral of the constant field 1. -/
+theorem total_volume_mul [Field K] (subs : List (SubDom K)) (sp : Spaces) (l : List Nat) (V : K)
+    (hp : parseSpaces sp subs.length = .ok l) (h : totalVolume subs sp = .ok V) :
+    V = prodOver l (fun i => subTV (subs.getD i default)) ∧
+    ((∀ s ∈ subs, s.tv = none ∧ s.dvol ≠ .none) →
+      prodOver (List.range subs.length) (fun i => subTV (subs.getD i default))
+        = sumOver (allIdx (subs.map SubDom.size))
+            (fun idx => prodOver (List.range subs.length) (fun k => dvolAt subs k idx))) := by
+  constructor
+  · obtain ⟨hlt, hints⟩ := parseSpaces_ok hp
+    rw [totalVolume_eq_loop, hints] at h
+    rw [totalVolumeLoop_prod subs l 1 V hlt h, one_mul]
+  · intro hs
+    simp only [prod_dvolAt_eq_prodZip]
+    rw [sum_prodZip (subs.map subW) (subs.map SubDom.size) (by simp)]
+    clear hp h
+    induction subs with
+    | nil => simp [prodOver]
+    | cons s t ih =>
+      have hs' : ∀ s' ∈ t, s'.tv = none ∧ s'.dvol ≠ .none := fun s' hs'' => hs s' (by simp [hs''])
+      obtain ⟨htv, hdv⟩ := hs s (by simp)
+      simp only [List.length_cons, prodOver_range_succ, List.map_cons, List.zip_cons_cons, prodOver,
+        List.getD_cons_zero, List.getD_cons_succ]
+      rw [ih hs']
+      congr 1
+      unfold subTV subW
+      cases hd : s.dvol with
+      | none => exact absurd hd hdv
+      | scalar w =>
+        simp only [htv]
+        clear ih hs hs' hdv htv hd
+        induction s.size with
+        | zero => simp [sumOver]
+        | succ n ihn =>
+          rw [List.range_succ, sumOver_append]
+          simp only [sumOver, add_zero, ← ihn, Nat.cast_succ]
+          ring
+      | vector w => simp only [htv]
+
+-- non-vacuity: RGSpace-like (2 points, dvol 1/2) × DOFSpace-like (weights 1/2, 2): 1 · 5/2 = Σ over 4 points
+example :
+    let subs : List (SubDom Rat) := [⟨[2], .scalar (1/2), none⟩, ⟨[2], .vector #[1/2, 2], none⟩]
+    (match totalVolume subs .none with | .ok v => v | .error _ => 0) = 5/2 ∧
+    sumOver (allIdx (subs.map SubDom.size)) (fun idx => prodOver (List.range 2) (fun k => dvolAt subs k idx)) = 5/2 := by
+  decide +kernel
+
 end NiftyVerif.C06
